@@ -313,6 +313,8 @@ def run_c06(t, tier, res):
     pws, opts = trainer.gen_list(t, flavour)
     if t.chance(1, 3):
         opts["coverage"] = round(t.between(1, 99) / 100.0, 2)
+    elif t.chance(1, 5):
+        opts["coverage"] = t.choice([1e-06, 0.0001, 0.001, 0.999999])     # probabilities far below 1e-4 / Markov mass near 0
     wr = scratch.fresh_disk()
     tr = trainer.train(pws, opts, uuid_seed=1)
     res.sample = {"passwords": pws[:14], "n": len(pws), "opts": opts}
